@@ -21,6 +21,11 @@ from sa.srcmodel import AnalysisError, Model  # noqa: E402
 
 
 def main() -> int:
+    if os.environ.get("PYTHONHASHSEED") != "0":
+        # deterministic set/dict iteration order: the verdict never depends on it, the report order does
+        os.environ["PYTHONHASHSEED"] = "0"
+        os.execv(sys.executable, [sys.executable] + sys.argv)
+    sys.setrecursionlimit(20000)
     ap = argparse.ArgumentParser()
     ap.add_argument("prop")
     ap.add_argument("--tier", default=os.environ.get("VERIF_TIER", "quick"), choices=["quick", "thorough"])
